@@ -183,6 +183,10 @@ fn analyze_token_spacing(ctx: &FormatContext, spacing: &mut SpacingModel, token:
                 {
                     spacing.add_token_left_expected(syntax_id, TokenSpacingExpected::Space(1));
                 }
+            } else if is_parent_syntax(token, LuaSyntaxKind::TypeBinary) {
+                // In a doc type `T - ?` and `T -?` parse differently: the code operator knob
+                // (`space_around_math_operator`) does not apply to annotations.
+                apply_space_rule(spacing, syntax_id, SpaceRule::Space);
             } else {
                 apply_space_rule(
                     spacing,
